@@ -149,7 +149,7 @@ func drawScript(rt *rapid.T, e *env, c *stats.Case) ([]op, []world) {
 	// running event filter (the initializer itself reads and, across the boundary, writes the database)
 	var skeleton []string
 	if e.baseN > 0 && rapid.Bool().Draw(rt, "lazyInitSkeleton") {
-		a := rapid.IntRange(2, 5).Draw(rt, "skStores")
+		a := rapid.IntRange(2, 6).Draw(rt, "skStores")
 		g := rapid.IntRange(0, a).Draw(rt, "skGraceful") // a = no graceful restart
 		for i := 0; i < a; i++ {
 			if i == g {
@@ -265,6 +265,15 @@ func runCase(rt *rapid.T, c *stats.Case) {
 	} else {
 		nk := min(W, 3)
 		seen := map[int]bool{}
+		// always include the stores of the last block of a bloom window and of the first block of the next one
+		for i, o := range ops {
+			if o.kind == "store" && (o.blk.Num()%8192 == 8191 || (o.blk.Num()%8192 == 0 && o.blk.Num() > 0)) && !seen[commitsAfter[i]] {
+				seen[commitsAfter[i]] = true
+				ks = append(ks, commitsAfter[i])
+				nk++
+				c.Label("fault-at-window-boundary-store")
+			}
+		}
 		// always include the first commit after the last restart (first access of a lazily initialised filter)
 		for i := len(ops) - 1; i >= 0; i-- {
 			if (ops[i].kind == "graceful" || ops[i].kind == "ungraceful") && commitsAfter[i] < W {
@@ -351,6 +360,24 @@ func runCase(rt *rapid.T, c *stats.Case) {
 			}
 			if ops[i].kind == "store" || ops[i].kind == "revert" {
 				c.NonTrivial("failed-commit-carrying-filter-mutation")
+			}
+			// the failed op need not be the next thing that happens: a reorg may arrive first (revert the head, store it again)
+			if wb := before(i); ops[i].kind == "store" && len(wb.blocks) > e.baseN && len(wb.blocks) > 0 && rapid.Bool().Draw(rt, "detourAfterFailedStore") {
+				c.Label("revert-and-restore-between-failed-store-and-retry")
+				last := wb.blocks[len(wb.blocks)-1]
+				if err := nd.BC.RevertHead(); err != nil {
+					c.Violation("op-failed-after-failed-write", "after commit %d failed during op %d %s, RevertHead failed: %v", k, i, ops[i], err)
+				}
+				w2 := world{blocks: wb.blocks[:len(wb.blocks)-1], l1: wb.l1}
+				if d := node.Diff(observe(nd, e.ids), e.ref(w2), 5); len(d) > 0 {
+					c.Violation("memory-disagrees-with-disk-after-failed-write", "commit %d failed during op %d %s, then the head was reverted: node differs from the chain without that head:\n%v", k, i, ops[i], d)
+				}
+				if err := nd.Store(last); err != nil {
+					c.Violation("op-failed-after-failed-write", "after commit %d failed during op %d %s and a revert of the head, storing block %d again failed: %v", k, i, ops[i], last.Num(), err)
+				}
+				if d := node.Diff(observe(nd, e.ids), e.ref(wb), 5); len(d) > 0 {
+					c.Violation("memory-disagrees-with-disk-after-failed-write", "commit %d failed during op %d %s, head reverted and stored again: node differs from the chain before the failed op:\n%v", k, i, ops[i], d)
+				}
 			}
 			// retry succeeds and the script ends like the uninterrupted run
 			for j := i; j < len(ops); j++ {
